@@ -54,6 +54,68 @@ def h_flavour(k0: int, k1: int, k2: int, k3: int, k4: int, k5: int, k6: int, k7:
     return finish(ok, n_items(d) >= 1 and (f0 != "list" or ff != "def"), (name, f0, f1 if len(d.srcs) > 1 else "-", ff if getattr(op, "fn", False) else "-", tuple(len(s) for s in d.srcs), endkind(end_s)))
 
 
+# ---- ExitStack: exit callbacks and callbacks under every callable flavour -----------------------
+def h_exit_flavour(z: int, kind: int, beh: int, raises: bool):
+    """
+    pre: 0 <= z <= 3 and 0 <= kind <= 1 and 0 <= beh <= 2
+    post: _[0]
+    post: not _[1]
+    """
+    reset_run()
+    ff = pick(FN_FLAVOURS, z)
+
+    class Boom(Exception):
+        pass
+
+    def run(flavour):
+        W = World("a")
+        D = Driver(W, sync_only=True)
+        log = []
+        boom = Boom("block")
+
+        def exit_impl(et, ev, tb):
+            log.append(("exit", ev is boom))
+            if beh == 1:
+                return True
+            if beh == 2:
+                raise Boom("from-exit")
+            return False
+
+        def cb_impl(*a, **k):
+            log.append(("callback", a, tuple(sorted(k))))
+            if beh == 2:
+                raise Boom("from-callback")
+            return beh == 1
+
+        async def prog():
+            try:
+                async with A.ExitStack() as stack:
+                    if kind == 0:
+                        stack.push(W.fn("exit", exit_impl, flavour))
+                    else:
+                        stack.callback(W.fn("cb", cb_impl, flavour), "arg", "arg2")
+                    if raises:
+                        raise boom
+                return "ok"
+            except Boom as e:
+                return ("exc", e is boom, str(e))
+
+        r = D.call(prog())
+        return r, log
+
+    try:
+        r0, l0 = run("def")
+        r1, l1 = run(ff)
+    except Suspended:
+        return finish(fail("ExitStack:suspended-with-nonsuspending-arguments"), False)
+    ok = True
+    if r0 != r1 or l0 != l1:
+        ok = fail("ExitStack:exit-callback-behaves-differently-under-flavour", (ff, r0, r1, l0, l1))
+    if not l1:
+        ok = fail("ExitStack:exit-callback-never-ran", (ff, r1)) and ok
+    return finish(ok, ff != "def", ("exit_flavour", ff, kind, beh, bool(raises)))
+
+
 # ---- sum: the same numbers / strings under every iterable flavour ------------------------------
 SUM_POOL = (1, 1.0, True, 0.1, 0.2, 0.3, -1, 2.5, "a", "b")
 
@@ -254,6 +316,7 @@ def _grid():
 GRID = {
     "h_flavour": _grid,
     "h_types": lambda: [(i,) for i in range(56)],
+    "h_exit_flavour": lambda: [(z, k, b, r) for z in range(4) for k in (0, 1) for b in range(3) for r in (False, True)],
     "h_sum_flavour": lambda: [(x, n, a, b, 5, ss) for x in range(5) for n in (0, 2, 3) for a in (0, 3, 8) for b in (4, 9) for ss in (-1, 3, 8)],
 }
 
@@ -290,6 +353,7 @@ def jobs(tier):
             add("h_flavour", op="merge", S=2, N=(1 if q else 2), X=(0, 4), Y=(0, 4), Z=((0, 3) if b1 else (0, 0)), b0=b0, b1=b1)
     add("h_flavour", op="zip", S=3, N=1, X=(0, 4), Y=(0, 4))
     add("h_types")
+    add("h_exit_flavour")
     for x in range(1, 5):
         if q:
             add("h_sum_flavour", x=x, N=2)
@@ -300,8 +364,8 @@ def jobs(tier):
 
 
 BOUNDS = {
-    "quick": "every iterable parameter takes each of {list, __getitem__ sequence, sync iterator, async generator, class-based async iterator} and every callable parameter each of {def, async def, partial(async def), callable object returning a coroutine} by symbolic selectors (up to 5x5x4 combinations per tool); data N<=2 (two-source tools N<=1), keys unbounded; result compared with the stdlib on canonical flavours; sum over numbers incl. inexact floats and strings (N<=2, thorough 3, any start) under every flavour; return-type category checked for 55 public call forms covering asyncstdlib.__all__",
+    "quick": "every iterable parameter takes each of {list, __getitem__ sequence, sync iterator, async generator, class-based async iterator} and every callable parameter each of {def, async def, partial(async def), callable object returning a coroutine} by symbolic selectors (up to 5x5x4 combinations per tool); data N<=2 (two-source tools N<=1), keys unbounded; result compared with the stdlib on canonical flavours; ExitStack.push / callback with each callable flavour x {falsy, truthy, raising} x block outcome; sum over numbers incl. inexact floats and strings (N<=2, thorough 3, any start) under every flavour; return-type category checked for 55 public call forms covering asyncstdlib.__all__",
     "thorough": "N<=3 (two-source tools N<=2)",
 }
-OUTSIDE = ["sorted(key=None) over a __getitem__-only sequence (CrossHair's sorted model rejects such sequences; covered natively by the pre-flight grid only)", "callables that return an awaitable on some calls and a plain value on others", "data sizes above the bound (flavour handling does not depend on data; stated, not proved)", "exit callbacks of ExitStack (covered by C14's entry kinds)"]
+OUTSIDE = ["sorted(key=None) over a __getitem__-only sequence (CrossHair's sorted model rejects such sequences; covered natively by the pre-flight grid only)", "callables that return an awaitable on some calls and a plain value on others", "data sizes above the bound (flavour handling does not depend on data; stated, not proved)", "exit callbacks of ExitStack beyond push/callback with one entry (C14 covers stacks)"]
 NONTRIVIAL_RULE = ">=1 item and at least one non-canonical flavour on the path"
